@@ -559,6 +559,7 @@ def pruneset(ctx):
 
 
 def run(ctx):
+    rawbuild(ctx)
     pruneset(ctx)
     rowrange(ctx)
     scorer_build(ctx)
@@ -568,3 +569,95 @@ def run(ctx):
     reserved0(ctx)
     ctx.assume("SCORERCHK decides that the collision check cannot be bypassed in either build; "
                "the equality of the sums and portable/AVX2 numeric agreement are not decided")
+
+
+def rawbuild(ctx):
+    """RAWBUILD (C07, C16, C10): shapes of the two raw-connector constructors.
+      ROWUNIT   the flat id tables are chunked by a width w (in ids); RawConnector::new receives
+                w / 8, the same width in U31x8 vectors - the unit the row accessors multiply by;
+      TABLESRC  the rows copied into the table that becomes argument k of RawConnector::new come
+                from the builder field of the same side (right rows from right_feat_ids_tmp ...);
+      FTSMAX    the row width is the maximum row length over *both* files: each of the two
+                parse_features loops folds its rows' lengths into it (a longer row in the other
+                file would not fit its chunk)."""
+    crate = ctx.facts("A").lib
+    E = Effects(crate)
+    p = "vibrato::dictionary::connector::raw_connector::RawConnector::from_readers"
+    fa = E.fa(p)
+    S = Sym(E, fa)
+    loc = fn_loc(crate, p)
+    news = [(b, t) for b, t in fa.calls() if any(strip_generics(x).endswith("RawConnector::new") for x in callee_paths(t))]
+    if len(news) != 1:
+        raise EngineError("RAWBUILD: RawConnector::new call not found in RawConnector::from_readers")
+    nb, nt = news[0]
+    widths = {root_local(fa, t["args"][1]) for b, t in calls_named(fa, "chunks_mut")}
+    w_e = S.operand(nt["args"][2])
+    e = strip_casts(w_e)
+    ok = e[0] == "binop" and e[1] == "Div" and strip_casts(e[3]) == ("const", 8)
+    if ok:
+        # the dividend is the chunk width
+        dl = None
+        o = fa.origin(nt["args"][2])
+        if o[0] == "rv" and o[1]["k"] == "binop":
+            dl = root_local(fa, o[1]["a"])
+        ok = dl in widths and len(widths) == 1
+    ctx.ob("ROWUNIT", "RawConnector::from_readers|width-in-vectors", ok, fa.loc(nb),
+           "RawConnector::new receives (chunk width in ids) / 8, the row width in U31x8 vectors" if ok else
+           "RawConnector::new receives %s as the row width, but the flat tables are chunked by the "
+           "width in ids and packed 8 ids per vector: the accessors multiply an id by the wrong "
+           "stride" % show(w_e)[:60])
+    # TABLESRC
+    def table_root(op):
+        cur = op
+        for _ in range(8):
+            oo = fa.origin(cur)
+            if oo[0] != "call":
+                return None
+            nm = short(strip_generics(sorted(callee_paths(oo[2]))[0]))
+            if nm in ("from_elem", "new", "with_capacity"):
+                return oo[1]
+            if nm not in ("deref", "deref_mut", "index", "index_mut", "chunks_mut", "chunks_exact_mut",
+                          "as_slice", "as_mut_slice", "to_simd_vec", "iter_mut", "into_iter"):
+                return None
+            if not oo[2]["args"]:
+                return None
+            cur = oo[2]["args"][0]
+        return None
+    for k, side in ((0, "right"), (1, "left")):
+        tab = table_root(nt["args"][k])
+        srcs = set()
+        for b, t in calls_named(fa, "copy_from_slice"):
+            d = show(S.operand(t["args"][0]))
+            s_ = show(S.operand(t["args"][1]))
+            # dst is an element of zip(chunks_mut(table..), &X_tmp)
+            zo = None
+            for zb, zt in calls_named(fa, "zip"):
+                if ("call@bb%d" % zb) in d:
+                    zo = zt
+            if zo is None:
+                continue
+            root = table_root(zo["args"][0])
+            if root is not None and root == tab:
+                srcs.add(show(S.operand(zo["args"][1])))
+        ok = bool(srcs) and all(x.endswith("%s_feat_ids_tmp" % side) for x in srcs)
+        ctx.ob("TABLESRC", "RawConnector::from_readers|%s-table" % side, ok, loc,
+               "the %s table is filled from %s_feat_ids_tmp" % (side, side) if ok else
+               "the table handed to RawConnector::new as the %s table is filled from %s: both sides "
+               "of every connection look up the same side's features"
+               % (side, sorted(x.rsplit(".", 1)[-1] for x in srcs) or "an unrecognised source"))
+    # FTSMAX in the builder
+    bp = "vibrato::dictionary::connector::raw_connector::RawConnectorBuilder::from_readers"
+    ba = E.fa(bp)
+    BS = Sym(E, ba)
+    maxes = [(b, t) for b, t in calls_named(ba, "max")]
+    files = set()
+    for b, t in maxes:
+        txt = show(BS.operand(t["args"][1])) + show(BS.operand(t["args"][0]))
+        for nm in ("bigram.right", "bigram.left"):
+            if nm in txt and "len(" in txt:
+                files.add(nm)
+    ok = files == {"bigram.right", "bigram.left"}
+    ctx.ob("FTSMAX", "RawConnectorBuilder::from_readers|width-is-max-over-both-files", ok, fn_loc(crate, bp),
+           "the row width is the maximum row length over bigram.right and bigram.left" if ok else
+           "the row width only folds in the rows of %s: a longer row in the other file does not fit "
+           "its chunk (slice out of range while the dictionary is built)" % (sorted(files) or "neither file"))
